@@ -68,6 +68,15 @@ thread_local! {
     static TWICE: std::cell::Cell<bool> = const { std::cell::Cell::new(false) };
 }
 
+thread_local! {
+    /// every weight of a DynWeighted list is multiplied by this (its weights are `usize`: units above
+    /// 2^32 give weights no u32 can hold)
+    static DYN_UNIT: std::cell::Cell<usize> = const { std::cell::Cell::new(1) };
+}
+fn dw(x: u32) -> usize {
+    x as usize * DYN_UNIT.with(|u| u.get())
+}
+
 fn sel_obs<S>(s: &S, pop: &Pop, env: &mut mcx::Env, alpha: Alphabet) -> SelObs
 where
     S: Selector<Pop>,
@@ -137,9 +146,9 @@ pub fn build_and_select(s: Shape, w: &[u32], pop: &Pop, env: &mut mcx::Env, alph
             sel_obs(&WeightedPair::new(wm(0, w[0]), b)?, pop, env, alpha)
         }
         Shape::Dyn => {
-            let mut d: DynWeighted<Pop> = DynWeighted::new(Marker(0), w[0] as usize);
+            let mut d: DynWeighted<Pop> = DynWeighted::new(Marker(0), dw(w[0]));
             for (i, x) in w.iter().enumerate().skip(1) {
-                d = d.with_selector(Marker(i), *x as usize);
+                d = d.with_selector(Marker(i), dw(*x));
             }
             sel_obs(&d, pop, env, alpha)
         }
@@ -147,10 +156,10 @@ pub fn build_and_select(s: Shape, w: &[u32], pop: &Pop, env: &mut mcx::Env, alph
             // a selection (from a throw-away tape) on every intermediate value: building must not depend
             // on whether the value has been used before
             let mut tape = mcx::TapeRng::default();
-            let mut d: DynWeighted<Pop> = DynWeighted::new(Marker(0), w[0] as usize);
+            let mut d: DynWeighted<Pop> = DynWeighted::new(Marker(0), dw(w[0]));
             let _ = mcx::guarded(|| d.select(pop, &mut tape).is_ok());
             for (i, x) in w.iter().enumerate().skip(1) {
-                d = d.with_selector(Marker(i), *x as usize);
+                d = d.with_selector(Marker(i), dw(*x));
                 if i + 1 < w.len() {
                     let _ = mcx::guarded(|| d.select(pop, &mut tape).is_ok());
                 }
@@ -191,7 +200,8 @@ pub fn case_scaled(s: Shape, v: &[u32], unit: u32) -> (u64, u64, Option<(String,
         }
     }
     let alpha = Alphabet::Grid(m.max(1) as u32);
-    let label = format!("{s:?} weights {w:?}");
+    let dyn_unit = DYN_UNIT.with(|u| u.get());
+    let label = if dyn_unit == 1 { format!("{s:?} weights {w:?}") } else { format!("{s:?} weights {w:?} x {dyn_unit}") };
     let mut law: Law<usize> = Law::new();
     let mut errs: Law<String> = Law::new();
     let mut build_failed = false;
@@ -404,13 +414,43 @@ pub fn run(run: &mut Run) {
             run.violation(k, w, json!({"check":"C13","scenario":"law","shape":format!("{:?}", cases[i].0),"weights":cases[i].1}));
         }
     }
+    // DynWeighted with weights beyond u32: the ratios v scaled by odd units above 2^32.  For an odd
+    // unit u and the grid of width T = sum(v), rand's 64-bit sampler maps cell j to the value
+    // j*u + (u-1)/2 without rejection (T*u <= 2^61), so the law is decided exactly by T cells.
+    let dyn_cases: Vec<(Shape, Vec<u32>, usize)> = cases
+        .iter()
+        .filter(|(s, w)| (*s == Shape::Dyn || *s == Shape::DynStep) && w.iter().all(|x| *x <= wmax) && w.iter().sum::<u32>() >= 1)
+        .flat_map(|(s, w)| {
+            let t: usize = w.iter().sum::<u32>() as usize;
+            [4_294_967_311usize, 10_000_000_019, ((1usize << 60) / t) | 1].into_iter().map(move |u| (*s, w.clone(), u))
+        })
+        .collect();
+    let dyn_results = mcx::par_map(dyn_cases.len(), |i| {
+        DYN_UNIT.with(|u| u.set(dyn_cases[i].2));
+        let r = case_scaled(dyn_cases[i].0, &dyn_cases[i].1, 1);
+        DYN_UNIT.with(|u| u.set(1));
+        r
+    });
+    for (i, (leaves, cps, v, _)) in dyn_results.into_iter().enumerate() {
+        run.evaluations += leaves;
+        run.transitions += cps;
+        if let Some((k, w)) = v {
+            if k.starts_with("machinery/") {
+                run.machinery(w);
+                continue;
+            }
+            run.violation(k.replacen("weighted/", "weighted/wide/", 1), w, json!({"check":"C13","scenario":"law","shape":format!("{:?}", dyn_cases[i].0),"weights":dyn_cases[i].1,"dyn_unit":dyn_cases[i].2.to_string()}));
+        }
+    }
+    run.note("dyn_scenarios_with_weights_above_u32", json!(dyn_cases.len()));
+    run.bound("dyn_weight_units", json!(["4294967311", "10000000019", "(2^60 / total) | 1"]));
     let ov = overflow_checks(run);
     run.evaluations += ov;
     run.transitions += ov;
     run.states = cases.len() as u64 + ov;
     run.traces_validated = run.evaluations;
     run.distinct_nontrivial = nontrivial;
-    run.rule = "every nesting shape of WeightedPair over 2..4 marker leaves (left chains via with_item_and_weight incl. the Result-chained form, right chains, balanced and mixed trees) and DynWeighted lists of 1..4(5) (also with a selection made on the value after every building step) x every weight vector over 0..3 (thorough 0..5), and the same ratios scaled to totals just below 2^32; all grid word sequences explored; the member law must equal w_i/sum exactly, zero-weight members unreachable, all-zero => zero-weight error, two selections from one combination value are independent (product law); u32-boundary weight vectors must build iff the total fits. non-trivial = scenarios with more than one reachable member".into();
+    run.rule = "every nesting shape of WeightedPair over 2..4 marker leaves (left chains via with_item_and_weight incl. the Result-chained form, right chains, balanced and mixed trees) and DynWeighted lists of 1..4(5) (also with a selection made on the value after every building step) x every weight vector over 0..3 (thorough 0..5), and the same ratios scaled to totals just below 2^32, DynWeighted also with every weight multiplied by odd units above 2^32 (weights no u32 holds); all grid word sequences explored; the member law must equal w_i/sum exactly, zero-weight members unreachable, all-zero => zero-weight error, two selections from one combination value are independent (product law); u32-boundary weight vectors must build iff the total fits. non-trivial = scenarios with more than one reachable member".into();
     run.bound("max_leaves", json!(if quick { 4 } else { 5 }));
     run.bound("max_weight", json!(wmax));
     run.bound("per_scenario_execution_budget", json!(budget.to_string()));
@@ -439,6 +479,8 @@ pub fn replay(v: &Value) -> bool {
         return built == (total <= u32::MAX as u64);
     }
     let unit = [1u32 << 30, 357_913_941, 858_993_459].into_iter().find(|u| w.iter().any(|x| *x >= *u) && w.iter().all(|x| x % u == 0)).unwrap_or(1);
+    let dyn_unit: usize = v["dyn_unit"].as_str().and_then(|x| x.parse().ok()).unwrap_or(1);
+    DYN_UNIT.with(|u| u.set(dyn_unit));
     let v: Vec<u32> = w.iter().map(|x| x / unit).collect();
     let (leaves, _, viol, _) = case_scaled(s, &v, unit);
     println!("{s:?} weights {w:?} (unit {unit}): {leaves} executions explored");
